@@ -277,12 +277,15 @@ fn run_case<F: MathFunction + RenderHints + Clone>(
     let polls0 = st0.polls.load(Ordering::SeqCst);
 
     // 2. pooled, perturbed, possibly cancelled run
-    let pool = ThreadPool::Custom(
-        rayon::ThreadPoolBuilder::new()
-            .num_threads(pool_n.max(1) as usize)
-            .build()
-            .unwrap(),
-    );
+    // pool_n == 0: the no-pool path itself is perturbed / cancelled
+    let pool = (pool_n > 0).then(|| {
+        ThreadPool::Custom(
+            rayon::ThreadPoolBuilder::new()
+                .num_threads(pool_n as usize)
+                .build()
+                .unwrap(),
+        )
+    });
     let token = CancelToken::new();
     let cancel_at = match cancel {
         Cancel::AtPoll(fr) => 1 + (*fr as usize * polls0.max(1)) / 1000,
@@ -310,7 +313,7 @@ fn run_case<F: MathFunction + RenderHints + Clone>(
     } else {
         None
     };
-    let got = run_work::<F>(work, Some(&pool), token.clone());
+    let got = run_work::<F>(work, pool.as_ref(), token.clone());
     verif_hook::set(None);
     if let Some(k) = killer {
         let _ = k.join();
@@ -550,7 +553,7 @@ impl Prop for P {
             3 => (0u16..=1100).prop_map(Cancel::AtPoll),
             2 => (0u32..3000).prop_map(Cancel::Async),
         ];
-        let run = (work, any::<bool>(), 1u8..=16, 0u8..=2, any::<u32>(), cancel).prop_map(
+        let run = (work, any::<bool>(), prop_oneof![1 => Just(0u8), 6 => 1u8..=16], 0u8..=2, any::<u32>(), cancel).prop_map(
             |(work, jit, pool, perturb, perturb_seed, cancel)| Case::Run {
                 work,
                 jit,
@@ -634,7 +637,7 @@ impl Prop for P {
 
     fn rule() -> &'static str {
         "generated workloads (2D render, 3D render with small tile lists so that many root tiles exist, or an octree mesh \
-         build) x backend x a custom rayon pool of 1..=16 threads x a seeded perturbation plan executed at every cancellation \
+         build) x backend x {no pool, a custom rayon pool of 1..=16 threads} x a seeded perturbation plan executed at every cancellation \
          poll through the cfg(fidget_verif) hook (yield / 50-500 us delay) x a cancel plan {never, before start, exactly at \
          poll k (token set by the polling thread itself, deterministic), from another thread after 0-3 ms}. Oracle: the \
          sequential no-pool result is the reference; never cancelled => Some and identical (images bit-for-bit, meshes as \
